@@ -122,6 +122,10 @@ theorem Dec.value_spec {d : Dec} {st en i : Nat} {e : Xor.Enc} {v : Nat} {bits :
     ⟨h.inited, h.st, h.en, h.idx, ok', hsim, e.step_inv v h.einv hv, hrest'⟩⟩
   simp [Dec.value, h.inited, hn, hval]
 
+/-- below the `uint16` boundary both ways of computing `startTime+idx` agree -/
+theorem nextKey_small (w : Bool) (st i : Nat) (h : st + i ≤ 65535) : nextKey w st i = st + i := by
+  cases w <;> simp [nextKey, u16] <;> omega
+
 /-- what a sequential reader is expected to see: `(slot, value)` for every present slot -/
 def expected : Nat → Slots → List (Nat × Nat)
   | _, [] => []
@@ -155,9 +159,9 @@ theorem Dec.readSeq_spec : ∀ (slots : Slots) (i : Nat) (e : Xor.Enc) (d : Dec)
     obtain ⟨f, rfl⟩ : ∃ f, fuel = f + 1 := ⟨fuel - 1, by omega⟩
     simp only [List.length_nil, Nat.add_zero] at hen hb
     have hnext : d.next = (false, d) := by
-      unfold Dec.next u16
-      rw [h.st, h.idx, h.en]
-      have : ¬ ((st + i) % 65536 ≤ en) := by omega
+      unfold Dec.next
+      rw [h.st, h.idx, h.en, nextKey_small _ st i (by omega)]
+      have : ¬ (st + i ≤ en) := by omega
       rw [if_neg this]
     simp [Dec.readSeq, hnext, expected]
   | cons s rest ih =>
@@ -166,10 +170,10 @@ theorem Dec.readSeq_spec : ∀ (slots : Slots) (i : Nat) (e : Xor.Enc) (d : Dec)
     simp only [List.length_cons] at hen hb hf
     have hrest : slotsOk rest := fun v hv => hs v (by simp [hv])
     have hnext : d.next = (true, { d with idx := i + 1 }) := by
-      unfold Dec.next u16
-      rw [h.st, h.idx, h.en]
-      have h1 : (st + i) % 65536 ≤ en := by omega
-      have h2 : (i + 1) % 65536 = i + 1 := by omega
+      unfold Dec.next
+      rw [h.st, h.idx, h.en, nextKey_small _ st i (by omega)]
+      have h1 : st + i ≤ en := by omega
+      have h2 : u16 (i + 1) = i + 1 := by unfold u16; omega
       rw [if_pos h1, h2]
     have hat := h.setIdx (i + 1)
     have e1 : st + (i + 1) = st + i + 1 := by omega
